@@ -179,6 +179,12 @@ func NewClient(dsn string, options ...Option) *http.Client {
 var _ http.RoundTripper = (*transport)(nil)
 
 func (r *transport) RoundTrip(req *http.Request) (*http.Response, error) {
+	if req.Method == "" {
+		// "For client requests, an empty string means GET" (net/http): work on
+		// a shallow copy that says so; the caller's request is left alone.
+		req = req.WithContext(req.Context())
+		req.Method = http.MethodGet
+	}
 	urlKey := r.uk.URLKey(req.URL)
 
 	if !r.rmc.IsRequestMethodUnderstood(req) {
